@@ -397,12 +397,17 @@ func lexString(l *lexer) stateFn {
 			l.pos += len(delimOpenInterpolate)
 			l.emit(tokenInterpolateOpen)
 			l.mode = modeInterpolate
+			// Brackets opened around the string must not hide the closing
+			// brace of the interpolation.
+			parens := l.parens
+			l.parens = 0
 			for ins := lexExpression; ins != nil; {
 				ins = ins(l)
 			}
 			if l.mode == modeClosed {
 				return nil
 			}
+			l.parens = parens
 			l.mode = modeNormal
 			l.emit(tokenInterpolateClose)
 		}
